@@ -1,9 +1,9 @@
 SPECIFICATION Spec
 CONSTANT OfmDepths = {1, 3, 9, 17}
-CONSTANT IfmDepths = {1, 7, 9, 17, 33}
+CONSTANT IfmDepths = {1, 7, 17, 33}
 CONSTANT KernelHs = {1, 3}
 CONSTANT KernelWs = {1, 2}
 CONSTANT Decomposing = TRUE
-CONSTANT BlockDepths = {4, 8, 16}
+CONSTANT BlockDepths = {4, 8, 12, 16}
 INVARIANT OrderIsBijection
 CHECK_DEADLOCK FALSE
